@@ -54,6 +54,8 @@ def make_loads(desc: dict) -> list:
     elif fam == "sinus":
         amp = 40e3
         bias = g.uniform(-0.6, 0.6) * amp
+        if "bias" in desc:
+            bias = float(desc["bias"]) * amp  # > 0: extraction-dominated, < 0: rejection-dominated (the draw above keeps the stream aligned)
         q = bias + amp * np.cos(2 * math.pi * (h - g.uniform(0, 600)) / 8760) + 0.3 * amp * np.sin(2 * math.pi * h / 24) * g.uniform(0.2, 1)
         q = q + g.normal(0, 0.1 * amp, 8760)
     elif fam == "heating_only":
